@@ -159,8 +159,14 @@ def AD.tua (c : ADCfg) (s : AD) (t : Nat) : AD × Nat :=
 /-- `record_success`: additive increase, clamped -/
 def AD.success (c : ADCfg) (s : AD) : AD := ⟨min c.pmax (s.p + c.step), s.tok, s.last⟩
 
-/-- `record_failure`: multiplicative decrease, clamped -/
-def AD.failure (c : ADCfg) (s : AD) : AD := ⟨max c.pmin (s.p * c.fn / c.fd), s.tok, s.last⟩
+/-- the rate after `record_failure`: multiplicative decrease, clamped -/
+def ADCfg.dec (c : ADCfg) (p : Nat) : Nat := max c.pmin (p * c.fn / c.fd)
+
+/-- `record_failure` (as repaired by `fixes/C10-adaptive-failure-keeps-old-bucket`): the rate drops and
+    the bucket shrinks with it — tokens above the new bucket size `rate · window` are discarded at once
+    (the unrepaired code kept them until the next `_refill` with positive elapsed time, so a burst at
+    the same instant, or the very first call, could still spend the old capacity). -/
+def AD.failure (c : ADCfg) (s : AD) : AD := ⟨c.dec s.p, min s.tok (c.cap (c.dec s.p)), s.last⟩
 
 /-! ## One interface for the driver and for the rate-limited entity -/
 
